@@ -72,11 +72,19 @@ type verifSlowUpstream struct {
 	inner    *verifUpstream
 	inFlight int
 	done     int
+	// verySlow: some requests (symbolic) take several seconds - every pending timer fires
+	// while they are in flight
+	verySlow bool
 }
 
 func (u *verifSlowUpstream) RoundTrip(req *http.Request) (*http.Response, error) {
 	u.inFlight++
 	verifYield() // latency
+	if u.verySlow && nondetBool() {
+		verifAdvanceTime()
+		verifAdvanceTime()
+		verifYield()
+	}
 	resp, err := u.inner.RoundTrip(req)
 	u.inFlight--
 	u.done++
@@ -104,10 +112,10 @@ var verifOtherBatches = []string{
 	`[]`,
 }
 
-func verifC20(nInvocations int) {
+func verifC20(nInvocations int, verySlow bool) {
 	verifTimersManual()
 	hfh, up := verifNewForwarder(false, 16, false, web.Zlib, 30*time.Second)
-	slow := &verifSlowUpstream{inner: up}
+	slow := &verifSlowUpstream{inner: up, verySlow: verySlow}
 	hfh.client = &http.Client{Transport: slow}
 	fc := &verifCountingFC{Coordinator: flush.NewFlushCoordinator()}
 	hfh.flushCoordinator = fc
@@ -169,6 +177,12 @@ func verifC20(nInvocations int) {
 		}
 		rt.events <- "INVOKE"
 		verifSettle()
+		if verySlow && nondetBool() {
+			// the invocation itself lasts several seconds: every pending timer fires
+			verifAdvanceTime()
+			verifAdvanceTime()
+			verifSettle()
+		}
 		// the function runs and emits datapoints
 		n := nondetIntIn(0, 2)
 		for j := 0; j < n; j++ {
@@ -194,8 +208,8 @@ func verifC20(nInvocations int) {
 	verifReach("done")
 }
 
-func VerifC20_1() { verifC20(1) }
-func VerifC20_2() { verifC20(2) }
+func VerifC20_1() { verifC20(1, true) }
+func VerifC20_2() { verifC20(2, false) }
 
 // a server failure during start-up is reported to the runtime's init-error endpoint and no
 // event is requested
@@ -214,6 +228,6 @@ func VerifC20_InitError() {
 }
 
 func VerifC20_Twin() {
-	verifC20(1)
+	verifC20(1, false)
 	verifAssert(false, "twin-false")
 }
